@@ -66,8 +66,9 @@ def make_empty_pagexml(metadata: Dict[str, any] = None, imageFilename: str = '',
     if page_attributes is None:
         page_attributes = {
             'imageFilename': imageFilename,
-            'imageWidth': str(imageWidth) if imageWidth is not None else '',
-            'imageHeight': str(imageHeight) if imageHeight is not None else ''
+            # the parser reads a size of 0 as "no size known" (and cannot read an empty string)
+            'imageWidth': str(imageWidth) if imageWidth is not None else '0',
+            'imageHeight': str(imageHeight) if imageHeight is not None else '0'
         }
     page = add_pagexml_sub_element(pcgts, 'Page')
     for key in page_attributes:
